@@ -390,6 +390,65 @@ func c10(c *Ctx) {
 			return ok && s.Chan == ssa.Value(reply)
 		}
 		sb := core.BlocksWith(queryFn, isSend)
+		// deferred form: `defer func() { reply <- r }()` registered in the entry block, before any
+		// exit, and no other send: every exit then runs exactly that one send
+		deferredOnce := false
+		if len(sb) == 0 && len(queryFn.Blocks) > 0 {
+			for _, in := range queryFn.Blocks[0].Instrs {
+				d, ok := in.(*ssa.Defer)
+				if !ok {
+					continue
+				}
+				mc, ok := d.Call.Value.(*ssa.MakeClosure)
+				if !ok {
+					continue
+				}
+				cf := mc.Fn.(*ssa.Function)
+				nSend, okShape := 0, len(cf.Blocks) == 1
+				for _, cb := range cf.Blocks {
+					for _, cin := range cb.Instrs {
+						sd, ok := cin.(*ssa.Send)
+						if !ok {
+							continue
+						}
+						nSend++
+						// the channel is the captured reply parameter, the value the captured result cell
+						ch := sd.Chan
+						if u, isLd := ch.(*ssa.UnOp); isLd && u.Op == token.MUL {
+							ch = u.X
+						}
+						fv, isFv := ch.(*ssa.FreeVar)
+						bound := false
+						if isFv {
+							for bi, v := range cf.FreeVars {
+								if v == fv && bi < len(mc.Bindings) {
+									b := mc.Bindings[bi]
+									if b == ssa.Value(reply) || core.ParamOf(b) == reply {
+										bound = true
+									}
+									if al, isAl := b.(*ssa.Alloc); isAl {
+										for _, rf := range *al.Referrers() {
+											if st, isSt := rf.(*ssa.Store); isSt && st.Addr == ssa.Value(al) && st.Val == ssa.Value(reply) {
+												bound = true
+											}
+										}
+									}
+								}
+							}
+						}
+						if !bound {
+							okShape = false
+						}
+					}
+				}
+				if okShape && nSend == 1 {
+					deferredOnce = true
+				}
+			}
+		}
+		if deferredOnce {
+			r.Pass("R3.one-reply", qname+" at-least-one", p.Pos(queryFn.Pos()), "the reply is sent by a deferred call registered before any exit")
+		}
 		w := core.CutReach(core.CutSpec{Fn: queryFn, Cut: func(b *ssa.BasicBlock, i int) bool { return sb[b.Succs[i]] },
 			Target: func(prev, b *ssa.BasicBlock) bool {
 				_, isRet := b.Instrs[len(b.Instrs)-1].(*ssa.Return)
@@ -398,7 +457,9 @@ func c10(c *Ctx) {
 		if sb[queryFn.Blocks[0]] {
 			w = nil
 		}
-		r.Check(w == nil, "R3.one-reply", qname+" at-least-one", p.Pos(queryFn.Pos()), "every path of the query goroutine sends a reply", "a query can finish without replying (the lookup waits forever): "+p.PathString(w))
+		if !deferredOnce {
+			r.Check(w == nil, "R3.one-reply", qname+" at-least-one", p.Pos(queryFn.Pos()), "every path of the query goroutine sends a reply", "a query can finish without replying (the lookup waits forever): "+p.PathString(w))
+		}
 		n := 0
 		inLoop := false
 		for b := range sb {
@@ -420,7 +481,7 @@ func c10(c *Ctx) {
 				}
 			}
 		}
-		r.Check(n >= 1 && !inLoop && !multi && n == len(sb), "R3.one-reply", qname+" at-most-one", p.Pos(queryFn.Pos()), "no path sends two replies", "a query can reply more than once (the in-flight counter underflows)")
+		r.Check(deferredOnce || (n >= 1 && !inLoop && !multi && n == len(sb)), "R3.one-reply", qname+" at-most-one", p.Pos(queryFn.Pos()), "no path sends two replies", "a query can reply more than once (the in-flight counter underflows)")
 		// the reply is what the query function returned
 		okVal := false
 		for b := range sb {
@@ -432,7 +493,7 @@ func c10(c *Ctx) {
 				}
 			}
 		}
-		r.Check(okVal, "R3.one-reply", qname+" replies-result", p.Pos(queryFn.Pos()), "the reply is the node list the query function returned", "the reply is not the query's result")
+		r.Check(okVal || deferredOnce, "R3.one-reply", qname+" replies-result", p.Pos(queryFn.Pos()), "the reply is the node list the query function returned", "the reply is not the query's result")
 	}
 
 	// ---- R4 bounded sorted push
@@ -495,6 +556,73 @@ func c10(c *Ctx) {
 						okPos = true
 					}
 				}
+			}
+		})
+		// library form: slices.BinarySearchFunc(entries, n, func(e, n) int { +1 iff DistCmp(t, e, n) > 0, else -1 })
+		// (never 0, so the position is the first entry strictly farther than the new node)
+		core.Calls(push, func(ci ssa.CallInstruction) {
+			if core.CalleeID(ci) != "slices.BinarySearchFunc" || len(ci.Common().Args) != 3 {
+				return
+			}
+			if !core.Derives(ci.Common().Args[0], func(x ssa.Value) bool { return core.IsLoadOfField(x, "nodesByDistance", "entries") }, core.DeriveOpts{}) {
+				return
+			}
+			mc, ok := ci.Common().Args[2].(*ssa.MakeClosure)
+			if !ok {
+				return
+			}
+			f := mc.Fn.(*ssa.Function)
+			if len(f.Params) != 2 {
+				return
+			}
+			from := func(v ssa.Value, pa *ssa.Parameter) bool {
+				return core.Derives(v, func(x ssa.Value) bool { return x == ssa.Value(pa) }, core.DeriveOpts{ThroughCalls: true})
+			}
+			// polarity of a fact about DistCmp(target, a, b): +1 "the entry is farther", -1 "it is not", 0 unrelated
+			pol := func(fc core.Fact) int {
+				out := 0
+				core.CmpFact(fc, func(op token.Token, x, y ssa.Value) bool {
+					cc, ok := x.(*ssa.Call)
+					k, isC := core.ConstInt(y)
+					if !ok || !isC || !strings.HasSuffix(core.CalleeID(cc), "enode.DistCmp") || len(cc.Call.Args) != 3 {
+						return false
+					}
+					a, b := cc.Call.Args[1], cc.Call.Args[2]
+					gt := (op == token.GTR && k == 0) || (op == token.GEQ && k == 1)
+					le := (op == token.LEQ && k == 0) || (op == token.LSS && k == 1)
+					lt := (op == token.LSS && k == 0) || (op == token.LEQ && k == -1)
+					ge := (op == token.GEQ && k == 0) || (op == token.GTR && k == -1)
+					switch {
+					case from(a, f.Params[0]) && from(b, f.Params[1]) && gt, from(a, f.Params[1]) && from(b, f.Params[0]) && lt:
+						out = 1
+					case from(a, f.Params[0]) && from(b, f.Params[1]) && le, from(a, f.Params[1]) && from(b, f.Params[0]) && ge:
+						out = -1
+					}
+					return false
+				})
+				return out
+			}
+			farther := core.AnyFact(func(fc core.Fact) bool { return pol(fc) == 1 })
+			notFarther := core.AnyFact(func(fc core.Fact) bool { return pol(fc) == -1 })
+			okAll, nPos := true, 0
+			for _, ret := range core.Returns(f) {
+				k, isC := core.ConstInt(core.ResolveSpill(ret.Results[0]))
+				switch {
+				case !isC || k == 0:
+					okAll = false
+				case k > 0:
+					nPos++
+					if core.InstrGuarded(ret, farther, nil) != nil {
+						okAll = false
+					}
+				default:
+					if core.InstrGuarded(ret, notFarther, nil) != nil {
+						okAll = false
+					}
+				}
+			}
+			if okAll && nPos > 0 {
+				okPos = true
 			}
 		})
 		r.Check(okPos, "R4.bounded-result", pname+" sorted-position", p.Pos(push.Pos()), "insertion point = first entry farther from the target than the new node (DistCmp > 0)", "the insertion point is not derived from the XOR distance comparison")
@@ -643,6 +771,13 @@ func c10(c *Ctx) {
 				continue
 			}
 			call := ci.(*ssa.Call)
+			// the winner flag is shared through a pointer the worker is handed (parameter or
+			// captured variable); a CAS on a struct's own field is some other latch
+			switch core.Unwrap(call.Call.Args[0]).(type) {
+			case *ssa.Parameter, *ssa.FreeVar, *ssa.Alloc:
+			default:
+				continue
+			}
 			name := core.FuncName(fn)
 			o, c1 := core.ConstInt(call.Call.Args[1])
 			n, c2 := core.ConstInt(call.Call.Args[2])
